@@ -5,12 +5,13 @@ from checks.common import conclude
 from checks import stunlib as S
 from checks.C06 import accessor_oracle
 
-MODULE = "Nice.Props.C07"
+MODULE = "Nice.Props.C07Usage"   # re-exports Nice.Props.C07 and adds the usage-builder theorem
 THEOREMS = [f"Nice.Props.C07.{t}" for t in (
     "C07_append_fits_or_unchanged", "C07_no_write_outside", "C07_no_write_outside_bytes",
     "C07_init_no_fault", "C07_finished_is_wellformed", "C07_roundtrip_32", "C07_roundtrip_64",
     "C07_roundtrip_flag", "C07_roundtrip_bytes", "C07_roundtrip_addr", "C07_xor_involution",
-    "C07_roundtrip_error", "C07_finish_len", "C07_finished_message_wellformed")]
+    "C07_roundtrip_error", "C07_finish_len", "C07_finished_message_wellformed",
+    "C07_usage_builders_propagate")]
 TRUSTED = [
     "Lean 4 kernel; axioms allowed: propext, Classical.choice, Quot.sound (audited by #print axioms on every run)",
     "hand-written model Nice/Model/Stun/{Basic,Find,Append,Agent}.lean of stun/stunmessage.c, stun5389.c, utils.c, "
